@@ -42,6 +42,23 @@ func TestC05(t *testing.T) {
 			}
 		}
 	}
+	// (a') EVM state written before a precompile call inside a frame that then fails: every
+	// stateful precompile flushes the StateDB into the store when it starts
+	fidx := 0
+	for rep := 0; rep < r.Pick(3, 40); rep++ {
+		for _, v := range c05FlushVariants {
+			for _, q := range []string{"staking.delegation(query)", "distribution.delegatorWithdrawAddress(query)", "bank.balances(query)", "staking.delegate(tx)"} {
+				for _, endKind := range []string{"revert", "invalid", "out-of-gas"} {
+					id := fmt.Sprintf("flush/%s/%s/%s/%d", v, q, endKind, rep)
+					fidx++
+					if !r.Want(id, fidx) {
+						continue
+					}
+					c05Flush(r, id, v, q, endKind)
+				}
+			}
+		}
+	}
 	// (b) EVM-only failing frames (storage, balances, logs, creates, self-destructs) vs go-ethereum
 	np := r.Pick(96, 4800)
 	for g := 0; g < np; g++ {
@@ -397,4 +414,214 @@ func c05Program(r *report.R, id string) {
 	}
 	n.EndBlock()
 	n.Commit()
+}
+
+
+var c05FlushVariants = []string{"contract-clean-outside-the-frame", "contract-dirty-outside-the-frame", "frame-created-a-contract", "frame-moved-value", "frame-self-destructed", "no-failure-slots-rewritten-after-the-call"}
+
+// c05Flush: a frame changes EVM state (storage, a created contract, a value transfer, a
+// self-destruct), then calls a stateful precompile, then fails; its caller goes on. Nothing the
+// frame did may be left in any store.
+func c05Flush(r *report.R, id, variant, q, endKind string) {
+	rng := r.Rand(id)
+	e := newPcEnv(uint64(r.Seed), rng)
+	n := e.n
+	r.Eval(1)
+	origin := n.Accounts[rng.Intn(4)]
+	var pc common.Address
+	var data []byte
+	val := n.Vals[rng.Intn(3)].ValAddr.String()
+	switch q {
+	case "staking.delegation(query)":
+		pc = addrStaking
+		data, _ = e.abiStaking.Pack("delegation", origin.Eth, val)
+	case "distribution.delegatorWithdrawAddress(query)":
+		pc = addrDist
+		data, _ = e.abiDist.Pack("delegatorWithdrawAddress", origin.Eth)
+	case "bank.balances(query)":
+		pc = addrBank
+		data, _ = e.abiBank.Pack("balances", origin.Eth)
+	default:
+		pc = addrStaking
+		data, _ = e.abiStaking.Pack("delegate", origin.Eth, val, big.NewInt(stakeUnit*3))
+	}
+	if len(data) == 0 {
+		r.Note("cannot pack %s", q)
+		return
+	}
+	sink := vn.DetAccount(77, "c05sink", rng.Intn(1000)).Eth
+	var pre []evmasm.Step
+	switch variant {
+	case "frame-created-a-contract":
+		pre = []evmasm.Step{evmasm.Create{Init: evmasm.InitCode([]evmasm.Step{evmasm.SStore{Slot: 1, Val: 1}}, []evmasm.Step{evmasm.Stop{}}), Fail: evmasm.Bubble}}
+	case "frame-moved-value":
+		pre = []evmasm.Step{evmasm.Transfer{To: sink, Value: big.NewInt(77)}}
+	case "frame-self-destructed":
+		// the self-destructing helper is called by the frame before the precompile
+	}
+	end := []evmasm.Step{evmasm.Revert{}}
+	switch endKind {
+	case "invalid":
+		end = []evmasm.Step{evmasm.Invalid{}}
+	case "out-of-gas":
+		end = []evmasm.Step{evmasm.BurnGas{Loops: 1 << 40}}
+	}
+	var helper common.Address
+	if variant == "frame-self-destructed" {
+		h, err := e.deploy([]evmasm.Step{evmasm.SelfDestruct{To: sink}}, 555)
+		if err != nil {
+			return
+		}
+		helper = h
+		pre = []evmasm.Step{evmasm.CallStep{Kind: evmasm.Call, To: helper, Data: []byte{1}, Fail: evmasm.Bubble}}
+	}
+	if variant == "no-failure-slots-rewritten-after-the-call" {
+		// no frame fails: what the contract wrote last is what the store must show, whatever the
+		// precompile call in between flushed
+		if endKind != "revert" {
+			return
+		}
+		d, err := e.deploy([]evmasm.Step{evmasm.SStore{Slot: 8, Val: 8}, evmasm.SStore{Slot: 6, Val: 1}, evmasm.Forward{Kind: evmasm.Call, To: pc, Fail: evmasm.Ignore},
+			evmasm.SStore{Slot: 8, Val: 0}, evmasm.SStore{Slot: 6, Val: 6}, evmasm.SStore{Slot: 4, Val: 4}}, 1000)
+		if err != nil {
+			return
+		}
+		if q == "staking.delegate(tx)" && !e.approve(origin, d, new(big.Int).Mul(big.NewInt(stakeUnit), big.NewInt(100000)), "/cosmos.staking.v1beta1.MsgDelegate") {
+			return
+		}
+		res := n.Deliver(n.EthTx(origin, vn.EthArgs{Nonce: n.EthNonce(origin.Eth), To: &d, Gas: 3_000_000, GasPrice: big.NewInt(1_000_000_000), Data: data}))
+		ers := vn.EthResult(res)
+		if res.Code != 0 || len(ers) != 1 || ers[0].VmError != "" {
+			r.Note("%s: tx failed", id)
+			return
+		}
+		if a, b, c := e.slot(d, 8), e.slot(d, 6), e.slot(d, 4); a != 0 || b != 6 || c != 4 {
+			r.Violation(id, "flush|no-failure|storage-after-precompile-call≠last-written", fmt.Sprintf("contract wrote slot8=8, slot6=1, called %s, then wrote slot8=0, slot6=6, slot4=4; the store shows slot8=%d slot6=%d slot4=%d", q, a, b, c), nil)
+			return
+		}
+		r.Count("rewritten_slots_consistent", 1)
+		r.Nontriv("flush|no-failure|" + q)
+		return
+	}
+	inner := []evmasm.Step{evmasm.IfCalldataSize{N: 1, Then: []evmasm.Step{evmasm.SStore{Slot: 5, Val: 5}}}, evmasm.SStore{Slot: 8, Val: 8}, evmasm.Log{Topic: 4}}
+	inner = append(inner, pre...)
+	inner = append(inner, evmasm.Forward{Kind: evmasm.Call, To: pc, Fail: evmasm.Bubble}, evmasm.SStore{Slot: 9, Val: 9})
+	inner = append(inner, end...)
+	d, err := e.deploy(inner, 100_000)
+	if err != nil {
+		r.Note("deploy: %v", err)
+		return
+	}
+	g := uint64(0)
+	if endKind == "out-of-gas" {
+		g = 900_000
+	}
+	var rootSteps []evmasm.Step
+	if variant == "contract-dirty-outside-the-frame" {
+		rootSteps = append(rootSteps, evmasm.CallStep{Kind: evmasm.Call, To: d, Data: []byte{1}, Fail: evmasm.Bubble})
+	}
+	rootSteps = append(rootSteps, evmasm.Forward{Kind: evmasm.Call, To: d, Gas: g, Fail: evmasm.Ignore, Record: 1}, evmasm.SStore{Slot: 7, Val: 7})
+	root, err := e.deploy(rootSteps, 1000)
+	if err != nil {
+		return
+	}
+	if q == "staking.delegate(tx)" && !e.approve(origin, d, new(big.Int).Mul(big.NewInt(stakeUnit), big.NewInt(100000)), "/cosmos.staking.v1beta1.MsgDelegate") {
+		r.Note("approve failed")
+		return
+	}
+	before := n.Snapshot(n.Ctx())
+	res := n.Deliver(n.EthTx(origin, vn.EthArgs{Nonce: n.EthNonce(origin.Eth), To: &root, Gas: 3_000_000, GasPrice: big.NewInt(1_000_000_000), Data: data}))
+	diff := vn.Diff(before, n.Snapshot(n.Ctx()))
+	ers := vn.EthResult(res)
+	if res.Code != 0 || len(ers) != 1 || ers[0].VmError != "" || e.slot(root, 1) != 1 {
+		r.Note("%s did not fail as planned: code=%d mark=%d", id, res.Code, e.slot(root, 1))
+		return
+	}
+	// what may change: the signer's account and balance, the fee collector, the root's marker
+	// slots, and slot 5 of the inner contract when it was written outside the failed frame
+	kinds := map[string][]string{}
+	isZero := func(b []byte) bool {
+		for _, x := range b {
+			if x != 0 {
+				return false
+			}
+		}
+		return true
+	}
+	accNumKeys := 0
+	for _, c := range diff {
+		switch c.Store {
+		case "bank":
+			if len(c.Key) > 2 && c.Key[0] == 0x02 {
+				addr := c.Key[2 : 2+int(c.Key[1])]
+				if bytes.Equal(addr, origin.Addr) || bytes.Equal(addr, e.feeColl) {
+					continue
+				}
+				if q == "staking.delegate(tx)" && bytes.Equal(addr, vn.ModuleAddr("bonded_tokens_pool")) {
+					kinds["cosmos-side"] = append(kinds["cosmos-side"], c.String())
+					continue
+				}
+				// a balance moved by the failed frame is EVM-side state (the EVM keeps balances in the bank)
+				kinds["balance-moved-by-the-frame"] = append(kinds["balance-moved-by-the-frame"], c.String())
+				continue
+			}
+			kinds["cosmos-side"] = append(kinds["cosmos-side"], c.String())
+		case "acc":
+			switch {
+			case len(c.Key) > 1 && c.Key[0] == 0x01 && bytes.Equal(c.Key[1:], origin.Addr):
+				continue
+			case len(c.Key) > 1 && c.Key[0] == 0x01 && bytes.Equal(c.Key[1:], pc.Bytes()):
+				kinds["account-of-the-precompile-address-created"] = append(kinds["account-of-the-precompile-address-created"], c.String())
+			case len(c.Key) > 1 && c.Key[0] == 0x01 && c.Old == nil:
+				kinds["account-created-by-the-frame"] = append(kinds["account-created-by-the-frame"], c.String())
+			case len(c.Key) > 1 && c.Key[0] == 0x01 && c.New == nil:
+				kinds["account-deleted-by-the-frame"] = append(kinds["account-deleted-by-the-frame"], c.String())
+			case len(c.Key) > 1 && c.Key[0] == 0x01:
+				kinds["account-changed-by-the-frame(nonce/code-hash)"] = append(kinds["account-changed-by-the-frame(nonce/code-hash)"], c.String())
+			default:
+				accNumKeys++ // account-number index and counter: consequences of a created/deleted account
+			}
+		case "evm":
+			if len(c.Key) > 21 && c.Key[0] == 0x02 && bytes.Equal(c.Key[1:21], root.Bytes()) {
+				continue
+			}
+			if len(c.Key) == 53 && c.Key[0] == 0x02 && bytes.Equal(c.Key[1:21], d.Bytes()) && c.Key[52] == 5 && variant == "contract-dirty-outside-the-frame" {
+				continue
+			}
+			if len(c.Key) == 53 && c.Key[0] == 0x02 {
+				if isZero(c.Old) && isZero(c.New) {
+					continue // an absent slot and a slot holding zero are the same storage value
+				}
+				kinds["storage-written-by-the-frame"] = append(kinds["storage-written-by-the-frame"], c.String())
+				continue
+			}
+			kinds["code-stored-by-the-frame"] = append(kinds["code-stored-by-the-frame"], c.String())
+		default:
+			kinds["cosmos-side"] = append(kinds["cosmos-side"], c.String())
+		}
+	}
+	kind := "query"
+	if strings.HasSuffix(q, "(tx)") {
+		kind = "tx"
+	}
+	bad := false
+	var ks []string
+	for k := range kinds {
+		ks = append(ks, k)
+	}
+	sort.Strings(ks)
+	for _, k := range ks {
+		if k == "cosmos-side" && kind == "tx" {
+			continue // the Cosmos-side effects of precompile transactions in failed frames: judged by the placements above
+		}
+		bad = true
+		r.Violation(id, fmt.Sprintf("flush|%s|precompile-%s|%s|%s", variant, kind, endKind, k),
+			fmt.Sprintf("a frame changed EVM state, called %s and then failed (%s); its caller went on, but the store still shows: %v", q, endKind, trunc(kinds[k], 4)),
+			map[string]any{"variant": variant, "precompile": q, "end": endKind, "all_kinds": ks})
+	}
+	if bad {
+		return
+	}
+	r.Count("flushed_frames_without_evm_trace", 1)
+	r.Nontriv(fmt.Sprintf("flush|%s|%s|%s", variant, q, endKind))
 }
